@@ -9,6 +9,11 @@ from common import T_COMMON
 #   c11.holds.no_spurious    second read executes nothing; first read executes only dirty nodes, none twice
 #   c11.holds.version        version_after = version_before + #executions (+1 for an accepted parameter set)
 #   c11.holds.deporder       64 calls of Dependencies() all enumerate in the model's order
+#   multi-port family (go/harness/c11_ports.go, 60 + n/100 histories, 2 lines each): an upstream nodes.Struct with TWO output
+#                            ports (Port() "P0"/"P1", same Node()), a consumer re-wired between the two ports of that same node
+#                            (and to other nodes / nil) interleaved with parameter sets and reads; the 2-port node is TWO model
+#                            nodes with the same inputs; ONLY c11.holds.fresh and c11.holds.no_spurious (consumer + downstream) are
+#                            emitted, no c11.hist / c11.holds.version, executions of the multi-port node are left out of x / y
 # n = number of generated histories (each gives 4 lines, every second one also one deporder line per struct node).
 CFG = dict(
     gen=[dict(tool="facts", mode="c11.skeleton", out="NodeSkeleton.lean")],
@@ -31,7 +36,12 @@ CFG = dict(
              "(tied by stream c11: every op of every history, all nodes observed) and, for Outdated()/process()/Value()/State() of struct_node.go, "
              "by the engine-F extractor go/facts/c11.go (decision list and statement sequences regenerated; outdated_from_source proves the model equal to their interpretation; the reading of the printed Go conditions on the model state — outdatedAtom — is trusted)",
              "harness reads the private cache field `value` of nodes.Struct through reflect (observation only)"],
-    residue=["KNOWN FINDING C11-skipping-processor (false of the code and of the model alike): for a processor that does not pull one "
+    residue=["multi-port nodes: values and consumer freshness only — a node with k output ports (none is built in; the harness defines a "
+             "2-port nodes.Struct) is k model nodes with the same inputs and per-port value functions; for those histories only "
+             "c11.holds.fresh (reads and Processed caches = Spec of the current wiring, for the ports, the consumer and everything "
+             "downstream) and c11.holds.no_spurious (consumer and downstream; idle second read executes nothing) are checked; the "
+             "multi-port struct's own version / execution count (shared between its ports in Go, separate in the model) is not corresponded",
+             "KNOWN FINDING C11-skipping-processor (false of the code and of the model alike): for a processor that does not pull one "
              "of its wired struct-node inputs (real example modeling/extrude/screw.go:24-41) the unread dependency stays Stale and "
              "Outdated() (`dep.State() != Processed`) is true on every read: idle reads re-execute the node and bump its version. "
              "skipping_processor_spurious / no_spurious_full_false prove it of the model; the fixed witness histories W1-W3 show it on "
